@@ -1,6 +1,7 @@
 (* C08 — Expansion never fails silently: bad $refs become errors or stay in place. *)
 From Coq Require Import List String Bool.
-From Spec Require Import Base.Json Base.Url Codec.Types Codec.Codec Expand.Expand Expand.ExpandFacts.
+From Spec Require Import Base.Json Base.Url Codec.Types Codec.Codec Expand.Expand Expand.ExpandFacts
+  Expand.ExpandSim Expand.ExpandSimCheck Expand.ExpandCycle Expand.ExpandElem Expand.ExpandTermG Expand.ExpandComplete.
 Import ListNotations.
 
 (* strict mode: a schema reference that cannot be resolved — missing document, missing pointer target, a target
@@ -50,3 +51,19 @@ Theorem C08_refuted_illtyped_target : forall E docs cwd OP ctx_base live follow 
   expand_schema_ref E docs cwd OP ctx_base live follow s parents rroot base m = Done (set_dfail sf false, JObj []).
 Proof. exact esr_continue_illtyped. Qed.
 Print Assumptions C08_refuted_illtyped_target.
+
+(* ---------- no spurious error (Expand/ExpandComplete.v) ----------
+   "... and returns no error when every $ref it has to follow is resolvable": on a graph in which every reference parses,
+   normalises, designates an object of a served document that decodes, and renders, the schema expansion with fuel above
+   the number of references of the graph returns a RESULT — from every state with a cache consistent with the loader,
+   every stack without duplicates, every coherent resolver root, SkipSchemas/AbsoluteCircularRef on or off. *)
+Theorem C08_no_spurious_error : forall E docs cwd OP ctx_base rid nodes live,
+  check_nodes E docs cwd OP ctx_base rid nodes = true -> check_resolvable E docs cwd OP ctx_base rid nodes = true ->
+  (forall lu ld, live = Some (lu, ld) -> doc_at docs cwd lu = Some ld) ->
+  o_cont OP = false ->
+  forall d s parents rroot base j,
+    NoDup parents -> List.length (refs_of nodes) < d ->
+    GN nodes base j -> Inv docs rid s -> Coh cwd rroot base ->
+    exists s' j', exp E docs cwd OP ctx_base live d s parents rroot base j = Done (s', j').
+Proof. exact checked_exp_succeeds. Qed.
+Print Assumptions C08_no_spurious_error.
